@@ -681,9 +681,87 @@ static void vf_native(void)
                 canaries=[{"fn": "NeighMoving::_movingSectorDefine", "rx": r"angle = GV_PI \+ atan\(dy / dx\);", "rp": "angle = GV_PI - atan(dy / dx);", "expect": r"sampled"}])
 
 
+def unit_moving_candidates():
+    """candidate filtering of NeighMoving::_moving: exactly the eligible samples reach the selection stage, with and without ball search"""
+    BOOLS = "typedef _Bool bool;\n#define true 1\n#define false 0\n"
+    pre = BOOLS + """
+#define NS 3
+#define nullptr 0
+typedef struct { int a[NS]; int n; } ivec;
+int S_nech, S_nmini, S_nmaxi; bool _useBallSearch, S_xvalid, S_sector; int _dbgrid; int _movingInd[NS]; double _movingDst[NS]; int g_ranks[NS];
+int g_cur;                                  /* ghost: the data sample currently loaded as second point */
+#define getNMini() (S_nmini)
+#define getFlagXvalid() (S_xvalid)
+#define getFlagSector() (S_sector)
+#define getNSMax() (0)
+static void VF_loadTarget(int iech_out) {}
+static ivec VF_ballIndices(void) { ivec v; v.n = W_nball; for (int k = 0; k < NS; k++) v.a[k] = W_ball[k]; return v; }
+static bool VF_isActive(int iech) { __CPROVER_assert(0 <= iech && iech < NS, "sample rank"); return W_active[iech]; }
+static bool _discardUndefined(int iech) { __CPROVER_assert(0 <= iech && iech < NS, "sample rank"); return W_undef[iech]; }
+static bool _xvalid(int iech, int iech_out) { return W_xv[iech]; }
+static void VF_loadData(int iech) { g_cur = iech; }
+static int _getBiPtsNumber(void) { return 1; }
+static bool VF_biptOK(int ipt) { return W_bipt[g_cur]; }
+static bool VF_distOK(void) { return W_dok[g_cur]; }
+static double VF_getDistance(void) { return W_dist[g_cur]; }
+static int VF_sector(void) { return W_sect[g_cur]; }
+static void VF_arrange(int nsel) {}
+static void _movingSectorNsmax(int nsel, int* ranks) {}
+static void _movingSelect(int nsel, int* ranks) {}
+"""
+    f = Fn("NeighMoving::_moving", NEIGH, r"^int NeighMoving::_moving\(int iech_out, VectorInt& ranks, double eps\)\s*$", csig="int NeighMoving_moving(int iech_out, int* ranks, double eps)",
+           rewrites=[(r"_dbin->getSampleNumber\(\)", "S_nech", 1), (r"ranks\.resize\(nech\);", ";", 1), (r"ranks\.fill\(-1\);", "for (int vf_k = 0; vf_k < NS; vf_k++) ranks[vf_k] = -1;", 1),
+                     (r"_dbgrid->getSampleAsSTInPlace\(iech_out, _T1\);", "VF_loadTarget(iech_out);", 1), (r"_dbout->getSampleAsSTInPlace\(iech_out, _T1\);", "VF_loadTarget(iech_out);", 1),
+                     (r"VectorInt elligibles;", "ivec elligibles; elligibles.n = 0;", 1), (r"elligibles = getBall\(\)\.getIndices\(_T1, _nMaxi\);", "elligibles = VF_ballIndices();", 1),
+                     (r"\(int\)elligibles\.size\(\)", "elligibles.n", 1), (r"elligibles\[jech\]", "elligibles.a[jech]", 1),
+                     (r"_dbin->isActive\(", "VF_isActive(", None),
+                     (r"_dbin->getSampleAsSTInPlace\(iech, _T2\);", "VF_loadData(iech);", 1),
+                     (r"_bipts\[ipt\]->isOK\(_T1, _T2\)", "VF_biptOK(ipt)", 1), (r"_biPtDist->isOK\(_T1, _T2\)", "VF_distOK()", 1),
+                     (r"_biPtDist->getDistance\(\)", "VF_getDistance()", 1),
+                     (r"(?s)VectorDouble incr = _biPtDist->getIncr\(\);\s*isect\s*= _movingSectorDefine\(incr\[0\], incr\[1\]\);", "isect = VF_sector();", 1),
+                     (r"VH::arrangeInPlace\(0, _movingInd, _movingDst, true, nsel\);", "VF_arrange(nsel);", 1)])
+    h = """
+void vf_harness(void)
+{
+  vf_havoc_inputs();
+  S_nech = NS; S_nmini = W_nmini; _useBallSearch = W_useBall; S_xvalid = W_xvalid; S_sector = W_sector; _dbgrid = 0;
+  __CPROVER_assume(0 <= W_nball && W_nball <= NS);
+  for (int k = 0; k < NS; k++) { __CPROVER_assume(0 <= W_ball[k] && W_ball[k] < NS); for (int m = 0; m < k; m++) __CPROVER_assume(W_ball[m] != W_ball[k]); }
+  for (int k = 0; k < NS; k++) __CPROVER_assume(W_dist[k] >= 0. && W_dist[k] < 1.e6 && 0 <= W_sect[k] && W_sect[k] < 8);
+  int ranks[NS];
+  int rc = NeighMoving_moving(0, ranks, 0.);
+  /* the eligible samples: offered by the search (all samples, or the ball-tree list), active, defined, not the cross-validated target, accepted by every checker */
+  int nelig = 0;
+  for (int i = 0; i < NS; i++) {
+    bool offered = 1; if (W_useBall) { offered = 0; for (int k = 0; k < NS; k++) if (k < W_nball && W_ball[k] == i) offered = 1; }
+    bool elig = offered && W_active[i] && !W_undef[i] && !(W_xvalid && W_xv[i]) && W_bipt[i] && W_dok[i];
+    if (elig) nelig++;
+    if (S_nech >= S_nmini)
+      __CPROVER_assert((ranks[i] >= 0) == elig, "a sample reaches the selection stage exactly when it is offered by the search, ACTIVE, defined, not the cross-validated target and accepted by every checker");
+    if (S_nech >= S_nmini && elig) __CPROVER_assert(ranks[i] == (W_sector ? W_sect[i] : 0), "it carries the sector of its own increment");
+  }
+  __CPROVER_assert(S_nech < S_nmini || (rc != 0) == (nelig < S_nmini), "the neighbourhood is refused exactly when fewer than nmini samples are eligible");
+  VF_REACH();
+}
+"""
+    return Unit("C06.moving.candidates", [f], prelude=pre, harness=h, pre_inputs=BOOLS, unwind=NS_MV + 2,
+                inputs=[("bool", "W_useBall"), ("bool", "W_xvalid"), ("bool", "W_sector"), ("int", "W_nmini"), ("int", "W_nball"), ("int", "W_ball", "3"), ("bool", "W_active", "3"),
+                        ("bool", "W_undef", "3"), ("bool", "W_xv", "3"), ("bool", "W_bipt", "3"), ("bool", "W_dok", "3"), ("double", "W_dist", "3"), ("int", "W_sect", "3")],
+                checks=["--bounds-check", "--pointer-check"], backends=("minisat", "cadical"), timeout=600,
+                bounded="3 data samples (unwinding assertions)",
+                claim=("NeighMoving::_moving, candidate stage (real text; search, checkers and the later stages are stubs): with the exhaustive search and with the ball-tree "
+                       "search alike, a sample reaches the selection stage exactly when it is offered by the search, ACTIVE, defined, not the cross-validated target and "
+                       "accepted by every pair checker including the distance one; it carries its own sector; the neighbourhood is refused exactly when fewer than nmini qualify"),
+                assumptions=["BOUNDED stand-in (3 samples)", "per-sample predicates (active, undefined, checkers, distance, sector) are arbitrary tables; sorting and the two selection routines are "
+                             "stubs (their contracts: units C06.simultaneous_sort.*, C06.movingSectorNsmax, C06.movingSelect)"],
+                canaries=[{"fn": "NeighMoving::_moving", "rx": r"if \(_discardUndefined\(iech\)\) continue;", "rp": ";", "expect": r"assertion"}])
+
+NS_MV = 3
+
+
 def units(tier):
     nmax = int(__import__("os").environ.get("VF_NMAX", 0)) or (6 if tier == "quick" else 10)
-    return [unit_nheap_push(nmax), unit_sort_order(nmax), unit_sort_multiset(nmax), unit_sector_nsmax(nmax, 3), unit_moving_select(nmax, 3), unit_sector_define(), unit_sector_sampled()]
+    return [unit_nheap_push(nmax), unit_sort_order(nmax), unit_sort_multiset(min(nmax, 8)), unit_sector_nsmax(nmax, 3), unit_moving_select(nmax, 3), unit_sector_define(), unit_sector_sampled(), unit_moving_candidates()]
 
 
 META = {
